@@ -594,6 +594,32 @@ func run(c *fw.Ctx) {
 			}
 		}
 	})
+	// every number literal of <= 5 (thorough 6) characters over {0,1,-,+,.,e,E} that the JSON grammar allows
+	if c.Mine(6000001) {
+		maxNum := 5
+		if c.Thorough() {
+			maxNum = 6
+		}
+		var gen func(cur string)
+		gen = func(cur string) {
+			if cur != "" && json.Valid([]byte(cur)) {
+				c.R.Evaluations++
+				c.Count("number_literals", 1)
+				for _, sh := range shapes[:2] {
+					if f := checkDoc(sh(cur)); f != nil {
+						report(f, witness{Doc: sh(cur)})
+					}
+				}
+			}
+			if len(cur) == maxNum {
+				return
+			}
+			for _, ch := range "01-+.eE" {
+				gen(cur + string(ch))
+			}
+		}
+		gen("")
+	}
 	for _, l := range append(append([]string{}, numberLeaves...), skippedLeaves...) {
 		for _, sh := range shapes {
 			c.R.Evaluations++
@@ -751,7 +777,7 @@ var _ = bytes.Contains
 
 func init() {
 	fw.Register(&fw.Check{ID: "C20", Level: "exploration",
-		Rule: "all nested maps over keys {a,b,é}, and over {'' (the empty string), a}, with depth<=3 and <=3 (quick) / <=4 (thorough) leaves (the flat key '' alone is refused by the rebuild functions with an explicit error, which is accepted), plus deep maps (spine of depth 1..12 / 1..20 with 1-3 sibling leaves at the bottom, with and without a side leaf per level) (flatten/rebuild both ways, string variant); all JSON documents of 4 nested-object shapes whose string leaf ranges over every string of <=2 (quick) / <=3 (thorough) symbols from {a, quote, backslash, slash, newline, tab, U+0001, é, U+1F600} in every JSON spelling (incl. surrogate pairs) (raw and escaped), plus number/true/null/array leaves, compared with encoding/json (UseNumber); all flat maps from 8 prefix-free key sets x every value string of <=2/3 symbols from {a, quote, backslash, slash, newline, tab, 0x01, é, '<', U+2028, U+1F600, U+10000, U+FFFF, 0x7f} written compact and formatted (valid for encoding/json, same map, round trip); plus EVERY prefix-free set of <=3/<=4 keys from all 30 paths of depth <=2 over the segments {s, s1, s10, s-, é} (names that are prefixes of one another or sort around the separator); translation loader on 14 directory layouts (1-4 files, 1-40 keys per file; sub-directories as the loaded base in three spellings; escaped values; look-alike file names that must not be loaded) under every schedule with <= bound preemptions, with the race oracle on the loader's and the store's multi-word variables (incl. variables captured by the per-file callback). distinct = inputs/schedules",
+		Rule: "all nested maps over keys {a,b,é}, and over {'' (the empty string), a}, with depth<=3 and <=3 (quick) / <=4 (thorough) leaves (the flat key '' alone is refused by the rebuild functions with an explicit error, which is accepted), plus deep maps (spine of depth 1..12 / 1..20 with 1-3 sibling leaves at the bottom, with and without a side leaf per level) (flatten/rebuild both ways, string variant); all JSON documents of 4 nested-object shapes whose string leaf ranges over every string of <=2 (quick) / <=3 (thorough) symbols from {a, quote, backslash, slash, newline, tab, U+0001, é, U+1F600} in every JSON spelling (incl. surrogate pairs) (raw and escaped), plus every number literal of <=5 (thorough 6) characters over {0,1,-,+,.,e,E} that the JSON grammar allows, and true/null/array leaves, compared with encoding/json (UseNumber); all flat maps from 8 prefix-free key sets x every value string of <=2/3 symbols from {a, quote, backslash, slash, newline, tab, 0x01, é, '<', U+2028, U+1F600, U+10000, U+FFFF, 0x7f} written compact and formatted (valid for encoding/json, same map, round trip); plus EVERY prefix-free set of <=3/<=4 keys from all 30 paths of depth <=2 over the segments {s, s1, s10, s-, é} (names that are prefixes of one another or sort around the separator); translation loader on 14 directory layouts (1-4 files, 1-40 keys per file; sub-directories as the loaded base in three spellings; escaped values; look-alike file names that must not be loaded) under every schedule with <= bound preemptions, with the race oracle on the loader's and the store's multi-word variables (incl. variables captured by the per-file callback). distinct = inputs/schedules",
 		Run: run, Replay: replay,
 		Assumptions: []string{"encoding/json is the reference JSON decoder", "loader values are %-free (Translate is a format API)", "2-3 preemptions, MaxJob 1-2 for the loader"}})
 }
